@@ -283,8 +283,8 @@ def rule_store(R):
     n = 0
     for name in ("set_control_written", "set_retained_written", "set_release_written"):
         b = roles.method(f, OUTBOUND, name)
-        cs = outq.calls_to(f, b, sw)
-        okc = len(cs) == 1 and b.operand_term(cs[0].args[1]) == ("param", "written") and b.operand_term(cs[0].args[2]) == ("param", "len")
+        cs = roles.calls_with_env(f, b, sw)
+        okc = len(cs) == 1 and peel(cs[0][1](cs[0][0].args[1])) == ("param", "written") and peel(cs[0][1](cs[0][0].args[2])) == ("param", "len")
         n += 1
         R.ob("store/%s" % name, okc, "%s forwards the written count and the packet length unchanged" % name, where=b.span)
     cm = roles.conn_methods(f)
